@@ -4,15 +4,21 @@ import (
 	"bytes"
 	"context"
 	"encoding/json"
+	"errors"
 	"fmt"
+	"math"
 	"math/big"
 	"reflect"
+	"sort"
+	"strconv"
+	"strings"
 	"time"
 
 	core "github.com/iden3/go-iden3-core/v2"
 	"github.com/iden3/go-iden3-core/v2/w3c"
 	"github.com/iden3/go-schema-processor/v2/merklize"
 	"github.com/iden3/go-schema-processor/v2/verifiable"
+	"github.com/piprate/json-gold/ld"
 )
 
 const vcTypeIRI = "https://www.w3.org/2018/credentials#VerifiableCredential"
@@ -347,6 +353,8 @@ func genC05(out *Out, r *Rng, tier string, n int, shard int) {
 		}
 		// histories: calls sharing options objects (and the credential) between calls
 		genHistory(out, r, c, vc, root, in, tags)
+		// histories of an issued credential in which some builds break off half way
+		genBrokenBuilds(out, r, c, tags)
 	}
 }
 
@@ -425,6 +433,395 @@ func genHistory(out *Out, r *Rng, c *ACred, vc *verifiable.W3CCredential, root *
 		}
 	}
 	out.Emit(Case{Op: "claim.history", In: J{"calls": calls}, Impl: results, Prop: propOf(why), Tags: append(append([]string{}, tags...), "history"), NT: true})
+}
+
+// ---------- builds that break off ----------
+//
+// "Building a claim does not modify the credential or the options and yields the same claim on every call, whatever was
+// built before" - a build that was started and then failed is a build too. An issued credential (one to three proofs of
+// the three kinds the library knows) goes through a history of builds; before some of them something is wrong: context
+// documents cannot be fetched (some of them, or the origin stops answering after a number of documents), the caller has
+// put a value into the subject that cannot be serialized, that is no literal of the field's datatype, that is outside the
+// field, or a member no context defines. After every call - failed or not - the credential and the options must be what
+// they were before that call, and every call made with the credential as issued must give what the same call gives on
+// fresh objects.
+
+// faultLoader: the credential's context documents, served by an origin that can be told to fail
+type faultLoader struct {
+	inner  *mapLoader
+	down   map[string]bool
+	budget int // < 0: no limit; otherwise the number of documents served before the origin stops answering
+	served int
+}
+
+func (l *faultLoader) LoadDocument(u string) (*ld.RemoteDocument, error) {
+	if l.down[u] || (l.budget >= 0 && l.served >= l.budget) {
+		return nil, ld.NewJsonLdError(ld.LoadingDocumentFailed, errors.New("dial tcp: connection refused: "+u))
+	}
+	l.served++
+	return l.inner.LoadDocument(u)
+}
+
+// sanitized: the subject with the values encoding/json cannot write replaced by their names
+func sanitized(v any) any {
+	switch x := v.(type) {
+	case map[string]any:
+		if x == nil {
+			return x
+		}
+		o := make(map[string]any, len(x))
+		for k, e := range x {
+			o[k] = sanitized(e)
+		}
+		return o
+	case []any:
+		o := make([]any, len(x))
+		for i, e := range x {
+			o[i] = sanitized(e)
+		}
+		return o
+	case float64:
+		if math.IsNaN(x) || math.IsInf(x, 0) {
+			return "float64:" + strconv.FormatFloat(x, 'g', -1, 64)
+		}
+		return x
+	}
+	if v != nil {
+		switch reflect.ValueOf(v).Kind() {
+		case reflect.Chan:
+			return "a channel"
+		case reflect.Func:
+			return "a func"
+		}
+	}
+	return v
+}
+
+// credMembers: everything a caller can see of the credential, member by member
+func credMembers(vc *verifiable.W3CCredential) map[string]string {
+	m := map[string]string{}
+	v := reflect.ValueOf(vc).Elem()
+	for i := 0; i < v.NumField(); i++ {
+		name := v.Type().Field(i).Name
+		x := v.Field(i).Interface()
+		if name == "CredentialSubject" {
+			x = sanitized(vc.CredentialSubject)
+		}
+		if b, err := json.Marshal(x); err != nil {
+			m[name] = "not serializable"
+		} else {
+			m[name] = string(b)
+		}
+	}
+	// the proofs as the API hands them out
+	ps := []string{fmt.Sprintf("nil:%v len:%d", vc.Proof == nil, len(vc.Proof))}
+	for _, p := range vc.Proof {
+		s := fmt.Sprintf("%T/%s", p, p.ProofType())
+		if cl, err := p.GetCoreClaim(); err != nil {
+			s += "/no claim"
+		} else {
+			h, _ := cl.Hex()
+			s += "/" + h
+		}
+		ps = append(ps, s)
+	}
+	m["Proof (kinds and core claims)"] = strings.Join(ps, ",")
+	return m
+}
+
+func changedMembers(a, b map[string]string) []string {
+	var d []string
+	for k, v := range a {
+		if b[k] != v {
+			d = append(d, k)
+		}
+	}
+	for k := range b {
+		if _, has := a[k]; !has {
+			d = append(d, k)
+		}
+	}
+	sort.Strings(d)
+	return d
+}
+
+// subjectFault puts something into the credential's subject that makes the build break off; undo takes it out again
+func subjectFault(r *Rng, c *ACred, vc *verifiable.W3CCredential) (kind, what string, undo func()) {
+	subj := vc.CredentialSubject
+	set := func(m map[string]any, k string, v any) func() {
+		old, had := m[k]
+		m[k] = v
+		return func() {
+			if had {
+				m[k] = old
+			} else {
+				delete(m, k)
+			}
+		}
+	}
+	var flat []CField // fields the subject sets directly
+	for _, f := range c.Fields {
+		if _, has := subj[f.Name]; has && !f.Nested && !f.Absent {
+			flat = append(flat, f)
+		}
+	}
+	nested, _ := subj["addr"].(map[string]any)
+	pick := r.Intn(10)
+	switch {
+	case pick < 4:
+		// a value encoding/json cannot write
+		var v any
+		var vn string
+		switch r.Intn(5) {
+		case 0:
+			v, vn = math.NaN(), "NaN"
+		case 1:
+			v, vn = math.Inf(1), "+Inf"
+		case 2:
+			v, vn = math.Inf(-1), "-Inf"
+		case 3:
+			v, vn = make(chan int), "a channel"
+		default:
+			v, vn = func() {}, "a func"
+		}
+		switch w := r.Intn(5); {
+		case w == 0 && len(flat) > 0:
+			f := flat[r.Intn(len(flat))]
+			return "unserializable", vn + " as the value of " + f.Name, set(subj, f.Name, v)
+		case w == 1 && nested != nil:
+			k := fmt.Sprintf("extra%d", r.Intn(100))
+			return "unserializable", vn + " as addr." + k, set(nested, k, v)
+		case w == 2:
+			k := fmt.Sprintf("list%d", r.Intn(100))
+			l := []any{float64(r.Intn(9)), "x", true}
+			l[r.Intn(len(l))] = v
+			return "unserializable", vn + " inside the array " + k, set(subj, k, l)
+		case w == 3:
+			k := fmt.Sprintf("obj%d", r.Intn(100))
+			return "unserializable", vn + " inside the object " + k, set(subj, k, map[string]any{"a": float64(r.Intn(9)), "b": v})
+		default:
+			k := fmt.Sprintf("note%d", r.Intn(100))
+			return "unserializable", vn + " as the new member " + k, set(subj, k, v)
+		}
+	case pick < 7 && len(flat) > 0:
+		// no literal of the field's datatype / outside the field
+		f := flat[r.Intn(len(flat))]
+		var v any
+		switch f.DT {
+		case "integer", "positiveInteger", "nonNegativeInteger", "long":
+			switch r.Intn(3) {
+			case 0:
+				v = r.Pick([]string{"twelve", "1 2", "0x1f", "--3", ""})
+			case 1:
+				q := new(big.Int).Add(hPoseidon().Prime, big.NewInt(int64(r.Intn(1000))))
+				v = json.Number(q.String())
+			default:
+				v = map[string]any{"@value": "1.5e", "@type": xsdNS + f.DT}
+			}
+		case "boolean":
+			v = r.Pick([]string{"maybe", "yes", "TRUE ", "2"})
+		case "dateTime", "date":
+			v = r.Pick([]string{"yesterday", "2023-13-45T99:00:00Z", "12 o'clock", "2023-02-30"})
+		case "double", "decimal":
+			v = r.Pick([]string{"1e", "one half", "1,5", "--"})
+		default:
+			v = map[string]any{"@id": "not an iri " + fmt.Sprint(r.Intn(100))}
+		}
+		return "bad-literal", fmt.Sprintf("%s (xsd:%s) := %s", f.Name, f.DT, deepJSON(v)), set(subj, f.Name, v)
+	default:
+		// a member no context defines (safe mode refuses it)
+		k := fmt.Sprintf("undefinedTerm%d", r.Intn(1000))
+		vals := []any{"text", float64(r.Intn(1000)), true, map[string]any{"inner": "x"}, []any{"a", "b"}}
+		v := vals[r.Intn(len(vals))]
+		if nested != nil && r.Bool() {
+			return "undefined-term", "addr." + k + " := " + deepJSON(v), set(nested, k, v)
+		}
+		return "undefined-term", k + " := " + deepJSON(v), set(subj, k, v)
+	}
+}
+
+func genBrokenBuilds(out *Out, r *Rng, c *ACred, tags []string) {
+	urls := []string{vcCtxURL, c.TypeURL}
+	if c.SingleContext {
+		urls = []string{c.bundleURL()}
+	}
+	fl := &faultLoader{inner: c.loader(), down: map[string]bool{}, budget: -1}
+	merklize.SetDocumentLoader(fl)
+	withLoader := func(o *verifiable.CoreClaimOptions) *verifiable.CoreClaimOptions {
+		if o != nil {
+			o.MerklizerOpts = []merklize.MerklizeOption{merklize.WithDocumentLoader(fl)}
+		}
+		return o
+	}
+	build := func(v *verifiable.W3CCredential, o *verifiable.CoreClaimOptions) (*core.Claim, error) {
+		return guard(10*time.Second, func() (*core.Claim, error) {
+			cl, err := v.ToCoreClaim(context.Background(), o)
+			if err == nil && cl == nil {
+				return nil, errNilNil
+			}
+			return cl, err
+		})
+	}
+	// the options object of the history (nil: the defaults, with the process-wide loader)
+	o := randOpts(r)
+	if o != nil && r.Chance(75) {
+		// mostly positions the library knows, so that the builds of the unharmed credential give claims
+		if o.SubjectPosition == "elsewhere" {
+			o.SubjectPosition = "value"
+		}
+		if o.MerklizedRootPosition == "Index" {
+			o.MerklizedRootPosition = ""
+		}
+		if c.SerAttr != "" {
+			o.MerklizedRootPosition = ""
+		}
+	}
+	var initial *verifiable.CoreClaimOptions
+	if o != nil {
+		cp := *o
+		initial = &cp
+	}
+	fresh := func() *verifiable.CoreClaimOptions {
+		if initial == nil {
+			return nil
+		}
+		cp := *initial
+		return withLoader(&cp)
+	}
+	// the same call on fresh objects, before anything has happened
+	vc0, err := c.W3C()
+	if err != nil {
+		panic(err)
+	}
+	cl0, err0 := build(vc0, fresh())
+
+	// the issued credential: one to three proofs, in any order
+	vc, _ := c.W3C()
+	is := NewIssuer(r, r.Intn(3))
+	signed := cl0
+	if signed == nil {
+		signed, _ = core.NewClaim(core.SchemaHash{byte(r.Intn(256)), 1, 2, 3}, core.WithRevocationNonce(uint64(r.Intn(1000))))
+	}
+	var proofs verifiable.CredentialProofs
+	var proofKinds []any
+	np := 1 + r.Intn(3)
+	for _, k := range r.Perm(3)[:np] {
+		switch k {
+		case 0:
+			proofs = append(proofs, is.SignBJJ(signed))
+			proofKinds = append(proofKinds, "BJJSignature2021")
+		case 1:
+			p, err := is.IssueSMT(signed)
+			if err != nil {
+				p = is.ProofSMT(signed)
+			}
+			proofs = append(proofs, p)
+			proofKinds = append(proofKinds, "Iden3SparseMerkleTreeProof")
+		default:
+			cp := verifiable.CommonProof{"type": "Ed25519Signature2020", "proofValue": "z" + fmt.Sprint(r.Intn(1000000))}
+			proofs = append(proofs, &cp)
+			proofKinds = append(proofKinds, "Ed25519Signature2020")
+		}
+	}
+	vc.Proof = proofs
+	// an identically assembled credential nobody builds a claim from
+	pristine, _ := c.W3C()
+	pristine.Proof = append(verifiable.CredentialProofs{}, proofs...)
+
+	var why []string
+	var steps, results []any
+	kinds := map[string]bool{}
+	brokeOff := 0
+	ncalls := 3 + r.Intn(4)
+	firstFault := r.Intn(2) // the first fault comes early: what follows it is what is of interest
+	for k := 0; k < ncalls; k++ {
+		kind, what := "none", ""
+		undo := func() {}
+		if x := r.Intn(10); k == firstFault || (k > firstFault && x < 4) {
+			switch x % 5 {
+			case 0:
+				// some of the context documents cannot be fetched
+				n := 1 + r.Intn(len(urls))
+				var dn []string
+				for _, i := range r.Perm(len(urls))[:n] {
+					fl.down[urls[i]] = true
+					dn = append(dn, urls[i])
+				}
+				sort.Strings(dn)
+				kind, what = "context-unreachable", strings.Join(dn, " ")
+				undo = func() { fl.down = map[string]bool{} }
+			case 1:
+				// the origin stops answering after some documents
+				fl.budget, fl.served = r.Intn(3), 0
+				kind, what = "origin-stops", fmt.Sprintf("after %d document(s)", fl.budget)
+				undo = func() { fl.budget = -1 }
+			default:
+				kind, what, undo = subjectFault(r, c, vc)
+			}
+		}
+		kinds[kind] = true
+		var oc *verifiable.CoreClaimOptions
+		if o != nil {
+			oc = withLoader(o)
+		}
+		optsBefore, before := optsSnapshot(oc), credMembers(vc)
+		cl, err := build(vc, oc)
+		after := credMembers(vc)
+		res := "a claim"
+		if err != nil {
+			res = "an error"
+			results = append(results, errJ(err))
+			if errClass(err) != "err" {
+				why = append(why, fmt.Sprintf("call %d: ToCoreClaim: %s", k, err.Error()))
+			}
+		} else {
+			results = append(results, okJ(claimSlotsJ(cl)))
+		}
+		if kind != "none" && err != nil {
+			brokeOff++
+		}
+		situation := "with nothing wrong"
+		if kind != "none" {
+			situation = "with " + kind + " [" + what + "]"
+		}
+		if d := changedMembers(before, after); len(d) > 0 {
+			why = append(why, fmt.Sprintf("ToCoreClaim modified the credential: call %d of the history (%s; it returned %s) changed %s", k, situation, res, strings.Join(d, ", ")))
+		}
+		if s := optsSnapshot(oc); s != optsBefore {
+			why = append(why, fmt.Sprintf("ToCoreClaim modified the caller's options: call %d of the history (%s): %s -> %s", k, situation, optsBefore, s))
+		}
+		// the same credential and options as in the stand-alone call (a fault of the origin that did not make the build fail
+		// changes nothing about the inputs)
+		if kind == "none" || ((kind == "context-unreachable" || kind == "origin-stops") && err == nil) {
+			if (err == nil) != (err0 == nil) {
+				why = append(why, fmt.Sprintf("call %d of the history (%s) gives %s but the same call on fresh objects gives %s", k, situation, errOrOK(err), errOrOK(err0)))
+			} else if err == nil && !reflect.DeepEqual(claimSlotsJ(cl), claimSlotsJ(cl0)) {
+				why = append(why, fmt.Sprintf("call %d of the history (%s) yields a different claim than the same call on fresh objects", k, situation))
+			}
+		}
+		steps = append(steps, J{"fault": kind, "what": what})
+		undo()
+	}
+	// everything the caller did has been undone
+	if len(why) == 0 && !reflect.DeepEqual(vc, pristine) {
+		why = append(why, "after the history the credential differs from an identically assembled one that no claim was built from: "+
+			strings.Join(changedMembers(credMembers(pristine), credMembers(vc)), ", "))
+	}
+	if o != nil {
+		a, b := *o, *initial
+		a.MerklizerOpts, b.MerklizerOpts = nil, nil
+		if !reflect.DeepEqual(a, b) {
+			why = append(why, fmt.Sprintf("the options object changed during the history: %+v -> %+v", b, a))
+		}
+	}
+	t := append(append([]string{}, tags...), "brokenbuilds", fmt.Sprintf("nilopts:%v", o == nil), fmt.Sprintf("broke-off:%v", brokeOff > 0))
+	var ks []string
+	for k := range kinds {
+		ks = append(ks, "fault:"+k)
+	}
+	sort.Strings(ks)
+	t = append(t, ks...)
+	out.Emit(Case{Op: "none", In: J{"doc": string(c.JSON()), "proofs": proofKinds, "opts": optsJ(initial), "steps": steps}, Impl: results, Prop: propOf(why), Tags: t, NT: true})
 }
 
 func errOrOK(e error) string {
